@@ -35,6 +35,18 @@ TEXT = {
               "Each input is decoded by both back-reference decoders on fresh allocators and probed by serialized_length_from_bytes; acceptance, trees, pair counts and consumed length must agree."),
     "C29": _t("exact limit sweep monitor (every limit for small trees, every token boundary for large ones)",
               "Both size-limited serialisers are run at every limit around every token boundary and must either return the full serialisation or fail with OutOfMemory."),
+    "C19": _t("history-model monitor over add/undo histories with byte snapshots and forced hash salts (release + debug-assertion builds, Miri in thorough)",
+              "Random incremental-serializer histories are executed on the real Serializer; undo must restore the snapshot bytes, the finished output must decode to the model-assembled tree, and every step must be byte-identical under forced salts."),
+    "C20": _t("reference-model round-trip monitor + totality/allocation monitor on mutated blobs + cross-decoder rejection (ASan/Miri layers)",
+              "serde_2026 output is decoded strictly and leniently against the model tree and the length probe; hostile blobs must be handled without panic/over-allocation with probe == consumed; legacy decoders must reject magic-prefixed blobs."),
+    "C21": _t("exhaustive enumeration of encodings/values against an independent varint model",
+              "Every varint encoding up to a declared length of 3 (quick) or 4 (thorough) bytes and every small value are run through read_varint/write_varint in strict and lenient mode and compared with a 20-line reference model."),
+    "C22": _t("reference-model monitor: recursive-definition hash vs 8 implementations (wheel side in the C26 python monitor)",
+              "Each generated tree is hashed by an independent implementation of the definition and by every tree-hash implementation of the library; all must agree."),
+    "C23": _t("direct cost-comparison monitor (native operator vs the maintainers' ChiaLisp program, both cost models)",
+              "Both programs are executed by the real interpreter on the same tree and flags; native cost must be strictly lower and results equal."),
+    "C24": _t("reference-model monitor: independent hash-consing census vs intern_tree",
+              "intern_tree output is compared with the model tree and with distinct-atom/distinct-sub-tree counts computed independently."),
     "C25": _t("totality monitor (catch_unwind, InternalError detector) under release, debug-assertion, AddressSanitizer and Miri builds",
               "Hostile programs and arbitrary operator argument trees are executed under four build variants; any panic, abort, sanitizer report, dying process or InternalError is a violation.",
               "Trusted: harness generators. ASan/Miri cannot see into blst (C/asm); Miri runs a small no-BLS subset. Hangs are inconclusive."),
